@@ -97,6 +97,8 @@ type FN struct {
 	scanIdle atomic.Bool
 	// stopAfterExecs > 0: the loops' context is cancelled when that many further execution calls have started
 	stopAfterExecs atomic.Int64
+	// DBPath: the node's configured db_path ("" = the repository's default). Set it in the prepare hook of NewFNPrepared.
+	DBPath string
 }
 
 // NewFN starts a full node for the produced chain. rootDir may be "" (no cache directory: clean restarts then lose the caches).
@@ -134,7 +136,7 @@ func NewFNPrepared(ctx context.Context, p *Produced, rootDir string, prepare fun
 }
 
 func (f *FN) start(reuse *Node) error {
-	opts := NodeOpts{Aggregator: false, CustomPayload: f.P.Spec.CustomPayload, InitialHeight: f.P.Spec.Initial, DABlockTime: time.Hour, BlockTime: time.Hour, RootDir: f.RootDir, DAStartHeight: 1}
+	opts := NodeOpts{Aggregator: false, CustomPayload: f.P.Spec.CustomPayload, InitialHeight: f.P.Spec.Initial, DABlockTime: time.Hour, BlockTime: time.Hour, RootDir: f.RootDir, DAStartHeight: 1, DBPath: f.DBPath}
 	dsp := NewMemDS(f.Im)
 	dsp.OnWrite = func(rec WriteRec) {
 		// the stop request arrives right after the n-th application from now made its state durable
@@ -171,7 +173,12 @@ func (f *FN) Restart(clean bool) error {
 		}
 	}
 	if !clean && f.RootDir != "" {
-		_ = os.RemoveAll(f.RootDir + "/data/cache")
+		if f.DBPath != "" {
+			// wherever the node keeps its cache snapshots: nothing else lives under the root directory (the database is in memory)
+			WipeDir(f.RootDir)
+		} else {
+			_ = os.RemoveAll(f.RootDir + "/data/cache")
+		}
 	}
 	f.Restarts++
 	f.ExecMarks = append(f.ExecMarks, len(f.Exec.Execs()))
@@ -382,3 +389,14 @@ func (f *FN) p2pHeaderTick() error {
 
 // P2PHeaderNext returns the index of the next header the P2P header store double expects.
 func (f *FN) P2PHeaderNext() int { return f.p2pH }
+
+// WipeDir removes everything inside dir and keeps dir itself.
+func WipeDir(dir string) {
+	ents, err := os.ReadDir(dir)
+	if err != nil {
+		return
+	}
+	for _, e := range ents {
+		_ = os.RemoveAll(dir + "/" + e.Name())
+	}
+}
